@@ -427,12 +427,13 @@ def check_C12(tier):
     import re
     t0 = time.time()
     agg = Agg('C12')
-    b = compile_bin('threads', ['checks/threads.cc'], 'fast')
+    b = compile_bin('threads', ['checks/threads.cc'], 'fast', inc=[vlib.build_ref()])
     base = ['--seed', str(seed()), '--tier', tier, '--known', known_tsv('C12')]
     agg.add(run_native(b, base + ['--mode', 'kernel'], NCPU, 'C12-kernel'))
     agg.add(run_native(b, base + ['--mode', 'gen'], NCPU, 'C12-gen'))
+    agg.add(run_native(b, base + ['--mode', 'lockstep'], NCPU, 'C12-lockstep'))
     # free-running under ThreadSanitizer (first-use initialisation included: each process starts cold)
-    bt = compile_bin('threads', ['checks/threads.cc'], 'tsan')
+    bt = compile_bin('threads', ['checks/threads.cc'], 'tsan', inc=[vlib.build_ref()])
     tlog = os.path.join(BUILD, 'run', 'C12-tsanlog')
     import shutil, glob
     shutil.rmtree(tlog, ignore_errors=True)
@@ -460,7 +461,7 @@ def check_C12(tier):
     rule = ('schedules, not timing: guarded schedule points in decay0_gauss hand control to a cooperative scheduler, so that exactly one thread runs between two points in a generated order; '
             'kernel level: ALL interleavings of 2 threads x 1 decay0_gauss call (252 per pair of integrand kinds, 9 pairs) and, thorough, 2x2 calls (48620 per assignment), plus random schedules for 2-3 '
             'threads x 1-2 calls over integrands that reach / miss the tolerance; generator level: 2-4 decay0_generator instances (modes whose quadratures miss the tolerance) initialised and shot on '
-            'threads under random schedules; the same workloads free-running under ThreadSanitizer after a start barrier; oracle: recording GSL handler never invoked (GSL\'s default aborts), handler '
+            'threads under random schedules; lock-step level: 2-3 generators strictly serialised with control handed over at the deviate requests (the harness owns the deviate source), over every published background nuclide and 24 double-beta configurations, pairs chosen so that nuclides reaching the same helper routine of the reference call graph meet, every entry with itself, plus random pairs/triples; the gen workloads also free-running under ThreadSanitizer after a start barrier; oracle: recording GSL handler never invoked (GSL\'s default aborts), handler '
             'restored after join, results bit-identical to a sequential run, no TSan race in bxdecay0 frames; non-trivial & distinct = schedules where two save/restore windows overlap and at least one quadrature misses its tolerance')
     return verdict(agg, tier, t0, rule, ['only the schedule points in gauss.cc are controlled; other shared state is left to TSan\'s happens-before analysis under free-running threads',
                                          'TSan cannot see the handler pointer inside the uninstrumented libgsl: that part is decided by the forced schedules'],
@@ -557,7 +558,7 @@ def replay(prop, path):
         api = compile_bin('api_ref', ['checks/api_ref.cc'], 'fast')
         return subprocess.run(['python3-vt', os.path.join(ROOT, 'py/c13.py'), os.path.join(bdir, 'bxdecay0-run'), api, _killshim(), 'quick', os.path.join(BUILD, 'run', 'c13-replay.json'), '--replay', path], env=run_env()).returncode
     if prop == 'C12':
-        b = compile_bin('threads', ['checks/threads.cc'], 'fast')
+        b = compile_bin('threads', ['checks/threads.cc'], 'fast', inc=[vlib.build_ref()])
         return subprocess.run([b, '--replay', path], env=run_env()).returncode
     if prop == 'C17':
         return subprocess.run([_g4bin(), '--replay', path], env=run_env()).returncode
